@@ -64,7 +64,7 @@ type mkStruct struct {
 }
 
 func genContractCase(r *Rng) contractCase {
-	switch r.intn(26) {
+	switch r.intn(27) {
 	case 0, 1:
 		a, b := int64(r.next())>>uint(r.intn(64)), int64(r.next())>>uint(r.intn(64))
 		switch r.intn(4) {
@@ -307,6 +307,13 @@ func genContractCase(r *Rng) contractCase {
 			if !reflect.DeepEqual(src, orig) {
 				return "input slice was modified"
 			}
+			// the value belongs to the caller: changing it must not reach the generator's input
+			for i := range p {
+				p[i] = -1
+			}
+			if !reflect.DeepEqual(src, orig) {
+				return "the drawn permutation aliases the generator's input slice"
+			}
 			return ""
 		}}
 	case 16:
@@ -451,6 +458,18 @@ func genContractCase(r *Rng) contractCase {
 			}
 			if v := gd1.Draw(t, "d1"); len(v) > 1 {
 				return "distinct slice over a one-element domain has duplicates"
+			}
+			return ""
+		}}
+	case 25:
+		// two distinct types with the same name (reflect.Type.String() is not a key): the requested dynamic type
+		ga, gb := makeSameNameA(), makeSameNameB()
+		return contractCase{"Make[two types named T]", func(t *rapid.T) string {
+			if a := ga(t); a != "main.T{A int8}" {
+				return "Make returned a value of another type: " + a
+			}
+			if b := gb(t); b != "main.T{B string}" {
+				return "Make returned a value of another type: " + b
 			}
 			return ""
 		}}
@@ -918,6 +937,47 @@ func cmdC18Oracle(args []string) {
 			fails = append(fails, map[string]any{"property": "C18", "what": "a float range boundary is not produced within the draw budget", "min": fa, "max": fb, "index": 3000 + c})
 		}
 	}
+	// (c') every float of a tiny range (2..32 adjacent values, anywhere on the number line) is produced
+	for c := 0; c < *nEdge; c++ {
+		k32 := uint32(pick(r, 1, 2, 3, 4, 7, 8, 15, 16, 31))
+		b32 := uint32(r.next()) & 0x7f7fffff
+		if b32+k32 >= 0x7f800000 {
+			b32 = 0x3f800000
+		}
+		x32, y32 := math.Float32frombits(b32), math.Float32frombits(b32+k32)
+		if r.chance(50) {
+			x32, y32 = -y32, -x32
+		}
+		g32 := rapid.Float32Range(x32, y32)
+		seen32 := map[float32]bool{}
+		for s := 0; s < *draws && len(seen32) < int(k32)+1; s++ {
+			seen32[g32.Example(s+c*100003)] = true
+		}
+		stats["tiny_float32_ranges"]++
+		if len(seen32) != int(k32)+1 {
+			fails = append(fails, map[string]any{"property": "C18", "what": "an allowed value is unreachable: not every float32 of a tiny range is produced within the draw budget",
+				"min": x32, "max": y32, "values": int(k32) + 1, "seen": len(seen32), "index": 6000 + c})
+		}
+		k64 := uint64(pick(r, 1, 2, 3, 4, 7, 8, 15, 16, 31))
+		b64 := r.next() & 0x7fefffffffffffff
+		if b64+k64 >= 0x7ff0000000000000 {
+			b64 = 0x3ff0000000000000
+		}
+		x64, y64 := math.Float64frombits(b64), math.Float64frombits(b64+k64)
+		if r.chance(50) {
+			x64, y64 = -y64, -x64
+		}
+		g64 := rapid.Float64Range(x64, y64)
+		seen64 := map[float64]bool{}
+		for s := 0; s < *draws && len(seen64) < int(k64)+1; s++ {
+			seen64[g64.Example(s+c*100003)] = true
+		}
+		stats["tiny_float64_ranges"]++
+		if len(seen64) != int(k64)+1 {
+			fails = append(fails, map[string]any{"property": "C18", "what": "an allowed value is unreachable: not every float64 of a tiny range is produced within the draw budget",
+				"min": x64, "max": y64, "values": int(k64) + 1, "seen": len(seen64), "index": 7000 + c})
+		}
+	}
 	// (d) fresh seeds: Check calls without -rapid.seed in one process, and across processes
 	{
 		old := rapid.VerifGetFlags()
@@ -984,4 +1044,29 @@ func cmdC18Oracle(args []string) {
 	}
 	js, _ := json.Marshal(map[string]any{"stats": stats, "failures": fails})
 	fmt.Println(string(js))
+}
+
+// two local types called T: both print as "main.T"
+func makeSameNameA() func(*rapid.T) string {
+	type T struct{ A int8 }
+	g := rapid.Make[T]()
+	return func(t *rapid.T) string {
+		v := any(g.Draw(t, "a"))
+		if _, ok := v.(T); !ok {
+			return fmt.Sprintf("%T (not the requested type)", v)
+		}
+		return "main.T{A int8}"
+	}
+}
+
+func makeSameNameB() func(*rapid.T) string {
+	type T struct{ B string }
+	g := rapid.Make[T]()
+	return func(t *rapid.T) string {
+		v := any(g.Draw(t, "b"))
+		if _, ok := v.(T); !ok {
+			return fmt.Sprintf("%T (not the requested type)", v)
+		}
+		return "main.T{B string}"
+	}
 }
